@@ -20,7 +20,7 @@ CHECKS = {
     "C03": {
         "script": "c03.py", "category": "model_checking",
         "technique": "stateless model checking of the real broker code under a controlled scheduler (exhaustive DFS over schedules with DPOR + sleep sets, virtual time)",
-        "text": U + " for all populations of <=3 waiting proxies (NAT x load x type) and <=2 concurrent clients (all NAT spellings incl. empty/absent); oracle: pool compatibility, refusal only when the eligible pool is exhausted, least-loaded proxy first, /debug counts equal the reference population and zero afterwards.",
+        "text": U + " for all populations of <=3 waiting proxies (NAT x load x type) and <=2 concurrent clients (the three names, empty, absent, and case/blank/unknown spellings, for which refusal or service like unknown or like the normalised name is accepted); oracle: pool compatibility, refusal only when the eligible pool is exhausted, least-loaded proxy first, /debug counts equal the reference population and zero afterwards.",
         "design_ref": "§3 C03", "note": SCHED_NOTE,
     },
     "C04": {
@@ -37,7 +37,7 @@ ENUM_NOTE = ("Trusted base: the independent reference written in the harness, Go
 CHECKS["C09"] = {
     "script": "c09.py", "category": "exploration", "engine": "enum",
     "technique": "bounded-exhaustive enumeration of operation sequences x reader behaviours (deviation-bounded environment scripts) on the real codec against a reference decoder",
-    "text": "All Data/Pad sequences of length <=3 over every prefix-size boundary x 5 extreme reader strategies x every reader script with <=2 deviations (short/zero-length/half reads, EOF attached); every truncation point; all byte strings <=4 over 12 boundary bytes; WritePadding(n) for all n<=70000; MaxDataForSize(n) for all n<=2^20+16; allocation bound.",
+    "text": "All Data/Pad sequences of length <=3 over every prefix-size boundary x 5 extreme reader strategies x every reader script with <=2 deviations (short/zero-length/half reads, EOF attached); every truncation point; a reader failing with a non-EOF error at every byte offset (plain or attached to the last bytes); all byte strings <=4 over 12 boundary bytes; WritePadding(n) for all n<=70000; MaxDataForSize(n) for all n<=2^20+16; allocation bound.",
     "design_ref": "§3 C09", "note": ENUM_NOTE,
 }
 CHECKS["C11"] = {
@@ -66,9 +66,9 @@ CHECKS["C01"] = {
 }
 CHECKS["C05"] = {
     "script": "c05.py", "category": "model_checking",
-    "technique": "stateless model checking of the real turbotunnelMode + QueuePacketConn + ClientMap + clientIDAddrMap under a controlled scheduler (DPOR + sleep sets, virtual time) with in-memory carriers and a KCP stand-in",
-    "text": U + " for 1 session x 10 carrier schedules (cut at every byte class + reconnect, overlapping carriers, idle gaps 30/59/61/95 s with a packet written during the gap) and for 2-3 concurrent sessions; oracle: every packet from ReadFrom was framed on a carrier that presented that ClientID (byte-identical, exactly once, none lost), downstream packets leave only through carriers of their session in FIFO order and survive gaps below the retention time, carrier handlers and their goroutines end, the address looked up at accept time is that of the most recent carrier of that ClientID and never another session's.",
-    "design_ref": "§3 C05", "note": SCHED_NOTE + " Tier 1 only: the token check and one-Accept-per-session live in ServeHTTP / KCP+smux (third-party stacks) and are not covered; KCP is replaced by a stand-in.",
+    "technique": "tier 1: stateless model checking of the real turbotunnelMode + QueuePacketConn + ClientMap + clientIDAddrMap under a controlled scheduler (DPOR + sleep sets, virtual time) with in-memory carriers and a KCP stand-in; tier 2: sequential enumeration of token variants and carrier schedules against the real listener (Transport.Listen, ServeHTTP, kcp-go, smux) over loopback WebSockets",
+    "text": U + " for 1 session x 10 carrier schedules (cut at every byte class + reconnect, overlapping carriers, idle gaps 30/59/61/95 s with a packet written during the gap) and for 2-3 concurrent sessions; oracle: every packet from ReadFrom was framed on a carrier that presented that ClientID (byte-identical, exactly once, none lost), downstream packets leave only through carriers of their session in FIFO order and survive gaps below the retention time, carrier handlers and their goroutines end, the address looked up at accept time is that of the most recent carrier of that ClientID and never another session's. Cuts surface as EOF or as a non-EOF error. Tier 2: 75 carriers without the token (64 bit flips, prefixes, ...) each followed by a full client stack: carrier ended, no connection produced; 96 scenarios of 1-3 concurrent real sessions over 8 carrier schedules x payload sizes and bursts of 8 simultaneous sessions: exactly one accepted connection per session, exact bytes both ways, right client address.",
+    "design_ref": "§3 C05", "note": SCHED_NOTE + " Tier 2 runs in real time: its oracles compare bytes and counts, missing progress is believed only after 4 runs, loopback trouble marks the run incomplete; the 30-95 s gaps exist only in tier 1 (virtual time).",
 }
 CHECKS["C06"] = {
     "script": "c06.py", "category": "model_checking",
@@ -84,26 +84,26 @@ CHECKS["C16"] = {
 }
 CHECKS["C07"] = {
     "script": "c07.py", "category": "exploration", "engine": "enum",
-    "technique": "bounded-exhaustive enumeration of address spellings (filtered by Go's own parsers) x delimiter contexts x joiners x write splits on the real scrubber, with a parse-based oracle",
+    "technique": "bounded-exhaustive enumeration of address spellings (filtered by Go's own parsers) x delimiter contexts x joiners x write splits on the real scrubber, with a parse-based oracle; concurrent writers: exhaustive interleaving exploration of the real LogScrubber under the controlled scheduler up to a preemption bound, without reduction",
     "text": "3,500 (quick) / 16,186 (thorough) spellings Go accepts or prints x 33-65 left x 38-69 right contexts; ordered pairs and triples x 7 joiners; every split of two/three-line inputs into <=3 Write calls through a real LogScrubber (split invariance, whole lines only); event String() methods. Oracle: no maximal [0-9A-Fa-f:.] run of the output parses to an injected address.",
-    "design_ref": "§3 C07", "note": ENUM_NOTE + " Concurrent writers are serialised by LogScrubber's mutex (one Write = one critical section); not explored separately.",
+    "design_ref": "§3 C07", "note": ENUM_NOTE + " Concurrent writers: 2-3 goroutines x 6 line scripts through one LogScrubber into a sink that can be descheduled before it consumes the bytes, all interleavings with <=3 (2 for 3 writers) preemptions; oracle: whole lines only, no address, no byte of a reused caller buffer, multiset of lines = scrubbed lines written.",
 }
 CHECKS["C10"] = {
     "script": "c10.py", "category": "exploration", "engine": "enum",
     "technique": "bounded-exhaustive enumeration of payload sizes x write/read chunkings (deviation-bounded scripts) x whitespace rewritings x markup insertions x token strings on the real AMP armor codec",
-    "text": "Payload lengths on every chunk/element boundary up to 120 kB x contents; encoder write scripts and decoder read scripts with <=2 deviations; every separator rewritten to each ASCII whitespace / doubled / CRLF; 4 markups at every outside-pre offset; every truncation; all token strings <=5 (<=6 thorough) over 16 tokens; endless inputs with bounded-buffering measurement and 60 s watchdog re-run 3x.",
+    "text": "Payload lengths on every chunk/element boundary up to 120 kB x contents; encoder write scripts and decoder read scripts with <=2 deviations; every sequence of <=4 (5) Writes over 16 boundary sizes up to 4097 B on a 26 kB payload; every separator rewritten to each ASCII whitespace / doubled / CRLF; 4 markups at every outside-pre offset; every truncation; all token strings <=5 (<=6 thorough) over 16 tokens; endless inputs (incl. a never-closed element cut into small tokens by inner tags) with bounded-buffering measurement and 60 s watchdog re-run 3x.",
     "design_ref": "§3 C10", "note": ENUM_NOTE,
 }
 CHECKS["C14"] = {
     "script": "c14.py", "category": "model_checking",
     "technique": "exhaustive enumeration of request matrices and request pairs through the real handlers under the controlled scheduler (virtual time, DPOR over the broker's goroutines), with a post-request probe",
-    "text": "Single requests: 5 methods x 12 paths (all endpoints + near misses) x 15 body classes (empty, valid, mutated-valid, legacy, garbage, 99 999/100 000/100 001/200 000 bytes, bad/absent fingerprint) x 6 Snowflake-NAT-Type values x 3 broker states; all ordered pairs (triples in thorough) from a reduced alphabet; legacy vs versioned request on identical states. Oracle: the handler returns (no panic), status is valid, virtual time <= 10 s, a fresh proxy+client happy path still works afterwards, legacy outcome equals the versioned outcome under the documented status mapping.",
+    "text": "Single requests: 5 methods x 12 paths (all endpoints + near misses) x 17 body classes (empty, valid, mutated-valid, legacy, garbage, 99 999/100 000/100 001/200 000 bytes, bad/absent fingerprint, mismatching/absent relay pattern) x 6 Snowflake-NAT-Type values x 3 broker states; all ordered pairs (triples in thorough) from a reduced alphabet; legacy vs versioned request on identical states. Oracle: the handler returns (no panic), status is valid, virtual time <= 10 s, a fresh proxy+client happy path still works afterwards, legacy outcome equals the versioned outcome under the documented status mapping.",
     "design_ref": "§3 C14", "note": SCHED_NOTE + " Handlers are registered on a fresh mux with the registrations main() makes; the routing table in main() and raw-socket behaviour of net/http are not covered (tier 1 only).",
 }
 CHECKS["C15"] = {
     "script": "c15.py", "category": "model_checking",
     "technique": "stateless model checking of the real Peers/connectLoop/WebRTCPeer.Close under a controlled scheduler (DPOR + sleep sets, virtual time) + enumeration of constructor failure kinds with real pion",
-    "text": U + " of connectLoop, a popping data path, peers closing on their own and one or two End callers for max in {1,2(,3)} x scripted Catch outcomes {now, 3 s, error}; oracle: live peers <= max, Pop never returns a peer whose Close completed before the call, every End returns and never panics, no Catch begins and connectLoop stops after End, all peers closed. Plus NewWebRTCPeerWithEvents (real pion) over 6 ICE configurations x 20 rendezvous failures and SnowflakeConn.Close once/twice/concurrently on a real KCP+smux session.",
+    "text": U + " of connectLoop, a popping data path, peers closing on their own and one or two End callers for max in {1,2(,3)} x scripted Catch outcomes {now, 3 s, error}; oracle: live peers <= max, Pop never returns a peer whose Close completed before the call, every End returns and never panics, no Catch begins and connectLoop stops after End, all peers closed. Plus NewWebRTCPeerWithEvents (real pion) over 6 ICE configurations x 20 rendezvous failures and SnowflakeConn.Close once/twice/three times/concurrently x {healthy, session dead, stream closed, packet conn closed, collection ended} on a real KCP+smux session with postconditions (collection stopped, no peer held, session and packet conn closed).",
     "design_ref": "§3 C15", "note": SCHED_NOTE + " Peers in the scheduled harness carry no pion objects (as in the repository's own tests); process exit status is not decided.",
 }
 CHECKS["C19"] = {
@@ -114,8 +114,8 @@ CHECKS["C19"] = {
 }
 CHECKS["C20"] = {
     "script": "c20.py", "category": "model_checking",
-    "technique": "the SCHED harnesses of the other properties rebuilt with -race and explored by the controlled scheduler (DPOR + sleep sets) in race mode: Go's happens-before detector with the scheduler's own hand-offs hidden (RaceDisable brackets, norace engine)",
-    "text": "Broker herds (2 proxies x 2 clients at timeout boundaries, all entry points), the metrics ticker firing while requests are in flight, the rounded counter, RedialPacketConn with failing carriers, QueuePacketConn users, Peers/connectLoop/End, server carriers of 2 sessions, the end-to-end composition with faults, proxy slot sessions: every explored execution runs under the race detector; a report counts when both racing accesses are in snowflake (non-harness) source.",
+    "technique": "the SCHED harnesses of the other properties rebuilt with -race and explored by the controlled scheduler (DPOR + sleep sets) in race mode: Go's happens-before detector with the scheduler's own hand-offs hidden (RaceDisable brackets, norace engine); plus one free-running race-detector pass over the real server stack (C05 tier-2 scenarios)",
+    "text": "Broker herds (2 proxies x 2 clients at timeout boundaries, all entry points), the metrics ticker firing while requests are in flight, the rounded counter, RedialPacketConn with failing carriers, QueuePacketConn users, Peers/connectLoop/End, server carriers of 2 sessions, the end-to-end composition with faults, proxy slot sessions, concurrent log writers: every explored execution runs under the race detector; a report counts when both racing accesses are in snowflake (non-harness) source.",
     "design_ref": "§2.5, §3 C20", "note": SCHED_NOTE + " A race is only reported if both accesses occur in some explored execution (budgeted, not exhaustive for the larger harnesses); third-party stacks are outside the harnesses; one recorded finding (ClientMap sweeper close vs QueuePacketConn.WriteTo send) is listed in known_findings.txt.",
 }
 CHECKS["C08"] = {
@@ -127,7 +127,7 @@ CHECKS["C08"] = {
 CHECKS["C13"] = {
     "script": "c13.py", "category": "exploration", "engine": "enum",
     "technique": "bounded-exhaustive enumeration of a JSON value lattice through the real deserialiser and its real callers (client Negotiate, proxy pollOffer, remoteIPFromSDP)",
-    "text": "Members type/sdp each over 24 JSON values x each other, top-level shapes, duplicate keys, truncations: value or error, never panic - directly and through BrokerChannel.Negotiate (scripted rendezvous) and SignalingServer.pollOffer (scripted transport); round trip for 4 types x 10 SDP texts; remoteIPFromSDP over candidate/c= grammars, truncations and hostile strings.",
+    "text": "Members type/sdp each over 24 JSON values x each other, top-level shapes, duplicate keys, truncations: value or error, never panic - directly and through BrokerChannel.Negotiate (scripted rendezvous) and SignalingServer.pollOffer (scripted transport); round trip for 4 types x 10 SDP texts; remoteIPFromSDP over candidate grammars, a c= token grammar (7 heads x 15 tails, media/session level, CRLF/LF), truncations and hostile strings.",
     "design_ref": "§3 C13", "note": ENUM_NOTE + " Callers are driven in-process, not as separate binaries.",
 }
 CHECKS["C18"] = {
